@@ -94,6 +94,13 @@ def workload(make, make2, role):
         out.append(len(wrap(v)))
     elif role == "nested-elem":
         out.append(len(ident([[v], {"a": [v, make2()]}, (v, [make2()])])))
+    elif role == "same-shape-nesting":
+        # a container inside a container of the same kind and length (a 1x1 matrix, a pair of pairs, a dict under the same key):
+        # comparing the inner with the outer one would compare the ELEMENTS, i.e. run their __eq__
+        out.append(len(ident([[v]])))
+        out.append(len(ident(((v, 1), (2, 3)))))
+        out.append(len(ident({"x": {"x": v}})))
+        out.append(len(ident([[[v]]])))
     elif role == "dictkey":
         try:
             out.append(type(ident({v: 1})).__name__)
@@ -192,5 +199,5 @@ def workload(make, make2, role):
     return out
 
 
-ROLES = ["arg", "kwarg", "elem", "nested-elem", "dictkey", "setelem", "yield", "return-only", "receiver", "method-arg",
+ROLES = ["arg", "kwarg", "elem", "nested-elem", "same-shape-nesting", "dictkey", "setelem", "yield", "return-only", "receiver", "method-arg",
          "coro-arg", "global", "nested-arg", "suspended-gen", "big-container-lifetime", "caller-local", "exception", "consume", "finalizer"]
